@@ -60,50 +60,18 @@ Qed.
 
 (* ------------------------------------------------------------------ C10: what the destination receives *)
 
-(* write_all delivers a prefix of the data; all of it unless it reports an error, and then something is lost *)
-Lemma write_all_split : forall script data dest d s e, write_all script data dest = (d, s, e) ->
-  exists del lost, data = del ++ lost /\ d = dest ++ del /\ (e = None -> lost = []) /\ (e <> None -> lost <> []).
-Proof.
-  induction script as [|w script IH]; intros data dest d s e H.
-  - unfold write_all in H. destruct data as [|b data]; inversion H; subst.
-    + exists [], []. split; [reflexivity|]. split; [rewrite app_nil_r; reflexivity|]. split; [reflexivity|intros C; contradiction].
-    + exists (b :: data), []. split; [rewrite app_nil_r; reflexivity|]. split; [reflexivity|]. split; [reflexivity|intros C; contradiction].
-  - destruct data as [|b data].
-    { cbn in H. inversion H; subst. exists [], []. split; [reflexivity|]. split; [rewrite app_nil_r; reflexivity|].
-      split; [reflexivity|intros C; contradiction]. }
-    assert (Hfail : forall x, (d, s, e) = (dest, script, Some x) ->
-              exists del lost, b :: data = del ++ lost /\ d = dest ++ del /\ (e = None -> lost = []) /\ (e <> None -> lost <> [])).
-    { intros x Hx. inversion Hx; subst. exists [], (b :: data). split; [reflexivity|]. split; [rewrite app_nil_r; reflexivity|].
-      split; [discriminate|intros _; discriminate]. }
-    cbn [write_all] in H. destruct w as [n| | |c].
-    + destruct n as [|n]; [apply (Hfail IoZero); symmetry; exact H|].
-      apply IH in H. destruct H as [del [lost [Hd [Hdest [Hn He]]]]].
-      exists (firstn (S n) (b :: data) ++ del), lost. split.
-      * rewrite <- app_assoc, <- Hd. symmetry. apply firstn_skipn.
-      * split; [rewrite Hdest, app_assoc; reflexivity|]. split; assumption.
-    + apply IH in H. exact H.
-    + apply (Hfail IoZero). symmetry. exact H.
-    + apply (Hfail (IoCode c)). symmetry. exact H.
-Qed.
-
-(* private_flush: the working buffer is emptied whatever happens; the destination receives a prefix of it: all of it when the
-   call succeeds; otherwise the error is an I/O error and the undelivered rest (at least one byte) is gone *)
+(* private_flush (fix D28): the open masters are untouched; the working buffer splits into the part [del] the destination took, which is
+   appended to the destination, and the rest, which stays in the working buffer; the rest is empty when the call succeeds; otherwise
+   the error is an I/O error and the rest has at least one byte ([write_all_split], [private_flush_split]: Proofs/WriterProofs.v) *)
 Theorem private_flush_bytes st st' r : private_flush st = (st', r) ->
-  w_buf st' = [] /\ w_open st' = w_open st /\
-  exists del lost, w_buf st = del ++ lost /\ w_dest st' = w_dest st ++ del /\
-                   (r = WOk -> lost = []) /\ (r <> WOk -> lost <> [] /\ exists x, r = WErr (EIo x)).
-Proof.
-  unfold private_flush. destruct (write_all _ _ _) as [[d s] e] eqn:E. intros H. inversion H; subst; cbn [w_buf w_open w_dest].
-  split; [reflexivity|]. split; [reflexivity|].
-  destruct (write_all_split _ _ _ _ _ _ E) as [del [lost [Hd [Hdest [Hn He]]]]]. exists del, lost.
-  split; [exact Hd|]. split; [exact Hdest|]. destruct e as [x|].
-  - split; [discriminate|]. intros _. split; [apply He; discriminate|exists x; reflexivity].
-  - split; [intros _; apply Hn; reflexivity|]. intros C. exfalso. apply C. reflexivity.
-Qed.
+  w_open st' = w_open st /\
+  exists del rest, w_buf st = del ++ rest /\ w_dest st' = w_dest st ++ del /\ w_buf st' = rest /\
+                   (r = WOk -> rest = []) /\ (r <> WOk -> rest <> [] /\ exists x, r = WErr (EIo x)).
+Proof. exact (private_flush_split st st' r). Qed.
 
 Lemma flush_conserves st st' : private_flush st = (st', WOk) -> w_dest st' = w_dest st ++ w_buf st.
 Proof.
-  intros H. destruct (private_flush_bytes _ _ _ H) as [_ [_ [del [lost [Hd [Hdest [Hn _]]]]]]].
+  intros H. destruct (private_flush_bytes _ _ _ H) as [_ [del [rest [Hd [Hdest [_ [Hn _]]]]]]].
   rewrite (Hn eq_refl), app_nil_r in Hd. rewrite Hd. exact Hdest.
 Qed.
 
@@ -117,7 +85,7 @@ Proof.
   destruct r1; try (inversion H; fail). exists st1. split; [reflexivity|].
   unfold flush_if_streaming in H. destruct (has_known (w_open st1)) eqn:Ek.
   - inversion H; subst. rewrite Ek in Hk. discriminate.
-  - destruct (private_flush_bytes _ _ _ H) as [Hb [Ho _]]. split; [exact Ho|]. split; [exact Hb|].
+  - destruct (private_flush_facts _ _ _ H) as [_ [Hb Ho]]. split; [exact Ho|]. split; [exact (Hb eq_refl)|].
     rewrite (flush_conserves _ _ H), Hd. reflexivity.
 Qed.
 
@@ -130,7 +98,7 @@ Proof.
   unfold flush_if_streaming, append, set_buf in H. cbn [w_open w_buf w_dest w_script] in H.
   destruct (has_known (w_open st)) eqn:Ek.
   - inversion H; subst. cbn [w_open] in Hk. rewrite Ek in Hk. discriminate.
-  - destruct (private_flush_bytes _ _ _ H) as [Hb [Ho _]]. split; [exact Ho|]. split; [exact Hb|].
+  - destruct (private_flush_facts _ _ _ H) as [_ [Hb Ho]]. split; [exact Ho|]. split; [exact (Hb eq_refl)|].
     rewrite (flush_conserves _ _ H). cbn [w_dest w_buf]. rewrite <- !app_assoc. reflexivity.
 Qed.
 
@@ -184,8 +152,8 @@ Theorem flush_bytes st st' : flush st = (st', WOk) ->
 Proof.
   unfold flush. intros H. destruct (end_all _ _) as [st1 r1] eqn:Ee. destruct r1; try (inversion H; fail).
   destruct (end_all_closed _ _ _ (le_n _) Ee) as [Hc [Ho [Hd _]]]. exists (w_buf st1). split; [exact Hc|].
-  destruct (private_flush_bytes _ _ _ H) as [Hb [Ho' _]]. rewrite (flush_conserves _ _ H), Hd, Ho', Ho.
-  split; [reflexivity|]. split; [reflexivity|exact Hb].
+  destruct (private_flush_facts _ _ _ H) as [_ [Hb Ho']]. rewrite (flush_conserves _ _ H), Hd, Ho', Ho.
+  split; [reflexivity|]. split; [reflexivity|exact (Hb eq_refl)].
 Qed.
 
 (* the masters still open after closing as many as possible are a suffix of those open before *)
@@ -212,20 +180,30 @@ Qed.
 
 (* flush()/into_inner() that fails: either closing some master fails because its size does not fit the width it was started
    with - then the whole state is what it was before the call (fix D26); or the destination fails - then every master has been
-   closed, the buffer is emptied, and only a proper prefix of the closed buffer has been delivered: the rest is lost *)
+   closed, a proper prefix [del] of the closed buffer has been delivered and the rest is still in the working buffer (fix D28) *)
 Theorem flush_failure st st' e : flush st = (st', WErr e) ->
   (e = ESize /\ st' = st) \/
-  (exists x, e = EIo x /\ w_open st' = [] /\ w_buf st' = [] /\
-     exists b del lost, closed_buf (w_open st) (w_buf st) = Some b /\ b = del ++ lost /\ lost <> [] /\ w_dest st' = w_dest st ++ del).
+  (exists x, e = EIo x /\ w_open st' = [] /\
+     exists b del rest, closed_buf (w_open st) (w_buf st) = Some b /\ b = del ++ rest /\ rest <> [] /\
+                        w_dest st' = w_dest st ++ del /\ w_buf st' = rest).
 Proof.
   unfold flush. intros H. destruct (end_all _ _) as [st1 r1] eqn:Ee. destruct r1.
   - right. destruct (end_all_closed _ _ _ (le_n _) Ee) as [Hc [Ho [Hd _]]].
-    destruct (private_flush_bytes _ _ _ H) as [Hb [Ho' [del [lost [Hs [Hdest [_ He]]]]]]].
-    assert (Hne : WErr e <> WOk) by discriminate. destruct (He Hne) as [Hl [x Hx]]. inversion Hx; subst.
-    exists x. split; [reflexivity|]. split; [rewrite Ho'; exact Ho|]. split; [exact Hb|].
-    exists (w_buf st1), del, lost. split; [exact Hc|]. split; [exact Hs|]. split; [exact Hl|]. rewrite Hdest, Hd. reflexivity.
+    destruct (private_flush_bytes _ _ _ H) as [Ho' [del [rest [Hs [Hdest [Hb [_ He]]]]]]].
+    assert (Hne : WErr e <> WOk) by discriminate. destruct (He Hne) as [Hl [x Hx]]. inversion Hx; subst e.
+    exists x. split; [reflexivity|]. split; [rewrite Ho'; exact Ho|].
+    exists (w_buf st1), del, rest. split; [exact Hc|]. split; [exact Hs|]. split; [exact Hl|].
+    split; [rewrite Hdest, Hd; reflexivity|exact Hb].
   - left. inversion H; subst; clear H. apply end_all_err in Ee. split; [apply Ee|reflexivity].
   - inversion H.
+Qed.
+
+(* after an I/O failure the bytes of the closed buffer are all still there: destination ++ working buffer = old destination ++ closed buffer *)
+Theorem flush_failure_conserves st st' x : flush st = (st', WErr (EIo x)) ->
+  exists b, closed_buf (w_open st) (w_buf st) = Some b /\ w_dest st' ++ w_buf st' = w_dest st ++ b.
+Proof.
+  intros H. destruct (flush_failure _ _ _ H) as [[C _]|[y [_ [_ [b [del [rest [Hc [Hb [_ [Hd Hr]]]]]]]]]]]; [discriminate C|].
+  exists b. split; [exact Hc|]. rewrite Hd, Hr, Hb, app_assoc. reflexivity.
 Qed.
 
 (* ------------------------------------------------------------------ C19: a flush that cannot close a master *)
@@ -246,12 +224,19 @@ Lemma flush_rejected_example :
   fst (wrun aw_sp (w_init []) (aw_pre ++ [OpFlush; aw_later])) = fst (wrun aw_sp (w_init []) (aw_pre ++ [aw_later])).
 Proof. vm_compute. repeat split; reflexivity. Qed.
 
-(* an I/O failure inside a streaming write: the 9 buffered header bytes are gone from the buffer, 2 were delivered *)
-Lemma io_loss_example :
+(* an I/O failure inside a streaming write: of the 9 buffered header bytes 2 were delivered, the other 7 are still buffered; the next
+   successful call that hands bytes over (a flush, or a streaming write) delivers them first *)
+Lemma io_retained_example :
   let u := {| o_len := None; o_unknown := true |} in
   let st := fst (wstep aw_sp (w_init [WAcc 2; WFail 5]) (OpWrite (TStart 129) u)) in
   snd (wstep aw_sp (w_init [WAcc 2; WFail 5]) (OpWrite (TStart 129) u)) = WErr (EIo (IoCode 5)) /\
-  w_dest st = [129; 1] /\ w_buf st = [] /\ open_ids (w_open st) = [129].
+  w_dest st = [129; 1] /\ w_buf st = [255; 255; 255; 255; 255; 255; 255] /\ open_ids (w_open st) = [129] /\
+  wstep aw_sp st OpFlush = (fst (wstep aw_sp (fst (wstep aw_sp (w_init []) (OpWrite (TStart 129) u))) OpFlush), WOk) /\
+  w_dest (fst (wstep aw_sp st OpFlush)) = [129; 1; 255; 255; 255; 255; 255; 255; 255] /\
+  run_writer aw_sp [OpWrite (TStart 129) u; OpWrite (TElem 16641 (VU 5)) o_default] [WAcc 2; WFail 5] =
+    ([(WErr (EIo (IoCode 5)), 2%nat); (WOk, 13%nat)], [129; 1; 255; 255; 255; 255; 255; 255; 255; 65; 1; 129; 5]) /\
+  run_writer aw_sp [OpWrite (TStart 129) u; OpWrite (TElem 16641 (VU 5)) o_default] [] =
+    ([(WOk, 9%nat); (WOk, 13%nat)], [129; 1; 255; 255; 255; 255; 255; 255; 255; 65; 1; 129; 5]).
 Proof. vm_compute. repeat split; reflexivity. Qed.
 
 (* ------------------------------------------------------------------ C09: the hypotheses of the document-level theorems hold
